@@ -1,6 +1,7 @@
 /-
-Invariants of the repaired `_solve` loop skeleton (`DarsiaModel.SolveLoop`), for every environment
-`env : Nat → Event` (= every event sequence) and every `num_iter`.
+Invariants of the `_solve` loop skeleton (`DarsiaModel.SolveLoop`) for every code shape `c` with
+`c.sound = true`, every environment `env : Nat → Event` (= every event sequence, with a fault at ANY
+statement of ANY body) and every `num_iter`.
 -/
 import DarsiaModel.SolveLoop
 namespace Darsia.SolveLoop
@@ -23,8 +24,23 @@ theorem Good.mono {env : Nat → Event} {i i' : Nat} {s : LoopState} (h : Good e
     obtain ⟨i0, h0, rest⟩ := h.flagged hf
     exact ⟨i0, Nat.lt_of_lt_of_le h0 hi, rest⟩
 
-theorem good_step {env : Nat → Event} {i : Nat} {s : LoopState} (h : Good env i s)
-    (hs : s.stopped = false) : Good env (i + 1) (step .repaired s i (env i)) := by
+variable {c : LoopCode}
+
+theorem sound_fields (hc : c.sound = true) :
+    c.restoreSol = true ∧ c.restoreDist = true ∧ c.flagOnBreak = true ∧ c.distInit = true ∧ c.iterInit = true := by
+  unfold LoopCode.sound at hc
+  simp only [Bool.and_eq_true] at hc
+  obtain ⟨⟨⟨⟨h1, h2⟩, h3⟩, h4⟩, h5⟩ := hc
+  exact ⟨h1, h2, h3, h4, h5⟩
+
+/-- a fault at any statement of any body: the handler of sound code leaves iterate and distance untouched -/
+theorem step_fail (hc : c.sound = true) (s : LoopState) (i b a : Nat) :
+    step c s i (.fail b a) = { s with iter := some i, stopped := true } := by
+  obtain ⟨h1, h2, _, _, _⟩ := sound_fields hc
+  simp [step, h1, h2]
+
+theorem good_step (hc : c.sound = true) {env : Nat → Event} {i : Nat} {s : LoopState} (h : Good env i s)
+    (hs : s.stopped = false) : Good env (i + 1) (step c s i (env i)) := by
   obtain ⟨hflag, hall⟩ := h.running hs
   have hc0 := h.consistent
   have hall' : ∀ b, env i = .ok b → AllOkBefore env (i + 1) := fun b hb j hj => by
@@ -33,14 +49,14 @@ theorem good_step {env : Nat → Event} {i : Nat} {s : LoopState} (h : Good env 
     · exact ⟨b, hb⟩
   cases he : env i with
   | ok met =>
-    by_cases hc : 1 < i ∧ met = true
-    · simp only [step, hc, and_self, if_true]
+    by_cases hm : 1 < i ∧ met = true
+    · simp only [step, hm, and_self, if_true]
       refine ⟨rfl, ?_, ?_⟩
       · intro h'; cases h'
       · intro _
-        refine ⟨i, Nat.lt_succ_self i, hc.1, ?_, rfl, hall⟩
-        rw [he, hc.2]
-    · simp only [step, hc, if_false]
+        refine ⟨i, Nat.lt_succ_self i, hm.1, ?_, rfl, hall⟩
+        rw [he, hm.2]
+    · simp only [step, hm, if_false]
       refine ⟨rfl, ?_, ?_⟩
       · intro _; exact ⟨hflag, hall' met he⟩
       · intro hf; simp only [hflag] at hf; cases hf
@@ -49,19 +65,14 @@ theorem good_step {env : Nat → Event} {i : Nat} {s : LoopState} (h : Good env 
     refine ⟨rfl, ?_, ?_⟩
     · intro h'; cases h'
     · intro hf; simp only [hflag] at hf; cases hf
-  | failBeforeUpdate =>
-    simp only [step]
-    refine ⟨hc0, ?_, ?_⟩
-    · intro h'; cases h'
-    · intro hf; simp only [hflag] at hf; cases hf
-  | failAfterUpdate =>
-    simp only [step, if_true]
+  | fail b a =>
+    rw [step_fail hc]
     refine ⟨hc0, ?_, ?_⟩
     · intro h'; cases h'
     · intro hf; simp only [hflag] at hf; cases hf
 
-theorem good_runFrom {env : Nat → Event} : ∀ (fuel i : Nat) (s : LoopState), Good env i s →
-    Good env (i + fuel) (runFrom .repaired env fuel i s)
+theorem good_runFrom (hc : c.sound = true) {env : Nat → Event} : ∀ (fuel i : Nat) (s : LoopState), Good env i s →
+    Good env (i + fuel) (runFrom c env fuel i s)
   | 0, _, _, h => h
   | fuel + 1, i, s, h => by
     unfold runFrom
@@ -69,17 +80,18 @@ theorem good_runFrom {env : Nat → Event} : ∀ (fuel i : Nat) (s : LoopState),
     · simp only [hs, if_true]
       exact h.mono hs (Nat.le_add_right _ _)
     · simp only [hs]
-      have := good_runFrom fuel (i + 1) _ (good_step h (by simpa using hs))
+      have := good_runFrom hc fuel (i + 1) _ (good_step hc h (by simpa using hs))
       rw [Nat.add_assoc, Nat.add_comm 1 fuel] at this
       exact this
 
-theorem good_init (env : Nat → Event) (m : Method) : Good env 0 (init .repaired m) := by
-  refine ⟨by simp [init], ?_, ?_⟩
+theorem good_init (hc : c.sound = true) (env : Nat → Event) : Good env 0 (init c) := by
+  obtain ⟨_, _, _, h4, h5⟩ := sound_fields hc
+  refine ⟨by simp [init, h4], ?_, ?_⟩
   · intro _; exact ⟨by simp [init], fun j hj => absurd hj (Nat.not_lt_zero j)⟩
   · intro hf; simp [init] at hf
 
-theorem good_run (env : Nat → Event) (m : Method) (n : Nat) : Good env n (run .repaired m n env) := by
-  have := good_runFrom n 0 _ (good_init env m)
+theorem good_run (hc : c.sound = true) (env : Nat → Event) (n : Nat) : Good env n (run c n env) := by
+  have := good_runFrom hc n 0 _ (good_init hc env)
   rw [Nat.zero_add] at this
   exact this
 
@@ -88,14 +100,15 @@ def Reaches (env : Nat → Event) (j : Nat) : Prop :=
   ∀ l, l < j → ∃ b, env l = .ok b ∧ ¬(1 < l ∧ b = true)
 
 /-- running up to a reached fault at index `j`: the loop stops there, holding iterate `j` -/
-theorem runFrom_fault {env : Nat → Event} {j : Nat} (hr : Reaches env j) (hf : (env j).isFail = true) :
+theorem runFrom_fault (hc : c.sound = true) {env : Nat → Event} {j : Nat} (hr : Reaches env j)
+    (hf : (env j).isFail = true) :
     ∀ (fuel i : Nat) (s : LoopState), s.stopped = false → i ≤ j → j < i + fuel →
       s.solTag = i → s.distTag = some i → s.flag = false →
-      let r := runFrom .repaired env fuel i s
+      let r := runFrom c env fuel i s
       r.solTag = j ∧ r.distTag = some j ∧ r.iter = some j ∧ r.flag = false ∧ r.stopped = true
   | 0, i, s, _, hij, hj, _, _, _ => by omega
   | fuel + 1, i, s, hs, hij, hj, hsol, hdist, hflag => by
-    have stay : ∀ (t : LoopState), t.stopped = true → ∀ f i', runFrom .repaired env f i' t = t := by
+    have stay : ∀ (t : LoopState), t.stopped = true → ∀ f i', runFrom c env f i' t = t := by
       intro t ht f i'
       cases f with
       | zero => rfl
@@ -104,17 +117,16 @@ theorem runFrom_fault {env : Nat → Event} {j : Nat} (hr : Reaches env j) (hf :
     simp only [hs]
     rcases Nat.lt_or_eq_of_le hij with hlt | rfl
     · obtain ⟨b, hb, hnb⟩ := hr i hlt
-      have hstep : step .repaired s i (env i) = { s with iter := some i, distTag := some (i + 1), solTag := i + 1 } := by
+      have hstep : step c s i (env i) = { s with iter := some i, distTag := some (i + 1), solTag := i + 1 } := by
         rw [hb]; simp only [step]; rw [if_neg hnb]
       rw [hstep]
-      exact runFrom_fault hr hf fuel (i + 1) _ hs (by omega) (by omega) rfl rfl hflag
-    · have hstop : (step .repaired s i (env i)).stopped = true := by
-        cases he : env i <;> simp_all [step, Event.isFail]
-      have hkeep : (step .repaired s i (env i)).solTag = s.solTag ∧ (step .repaired s i (env i)).distTag = s.distTag ∧
-          (step .repaired s i (env i)).iter = some i ∧ (step .repaired s i (env i)).flag = s.flag := by
-        cases he : env i <;> simp_all [step, Event.isFail]
-      simp only [Bool.false_eq_true, if_false]
-      rw [stay _ hstop]
-      exact ⟨hkeep.1.trans hsol, hkeep.2.1.trans hdist, hkeep.2.2.1, hkeep.2.2.2.trans hflag, hstop⟩
+      exact runFrom_fault hc hr hf fuel (i + 1) _ hs (by omega) (by omega) rfl rfl hflag
+    · cases he : env i with
+      | ok m => rw [he] at hf; cases hf
+      | nan => rw [he] at hf; cases hf
+      | fail b a =>
+        simp only [Bool.false_eq_true, if_false]
+        rw [step_fail hc, stay _ rfl]
+        exact ⟨hsol, hdist, rfl, hflag, rfl⟩
 
 end Darsia.SolveLoop
